@@ -108,6 +108,31 @@ Theorem C19_config_truncation :
 Proof. exact config_truncation. Qed.
 Print Assumptions C19_config_truncation.
 
+(* the builder, as far as the error injector goes: whatever the order of error_rate() / error_fn()
+   calls, the LAST error_rate() wins (clamped) and error_fn() never changes the rate, however often
+   the error function is replaced (fix 7904406); CustomErrorFn as soon as error_fn() was called *)
+Theorem C19_builder_last_rate_wins :
+  forall ops,
+    brate (build ops) = rate_of (last_rate ops None) /\ bcustom (build ops) = existsb is_fn ops.
+Proof. exact builder_last_rate_wins. Qed.
+Print Assumptions C19_builder_last_rate_wins.
+
+(* each of the 16 builder routes the harness drives configures exactly the script's error rate *)
+Theorem C19_routes_configure_rate :
+  forall flags eb lb minv maxv,
+    flags mod 2 = 1 ->
+    custom (mk_config flags eb lb minv maxv) = true /\
+    erate (mk_config flags eb lb minv maxv) = clamp01 (f64_val eb).
+Proof. exact routes_configure_rate. Qed.
+Print Assumptions C19_routes_configure_rate.
+
+Theorem C19_no_injector_config :
+  forall flags eb lb minv maxv,
+    flags mod 2 = 0 ->
+    custom (mk_config flags eb lb minv maxv) = false /\ erate (mk_config flags eb lb minv maxv) = Some 0.
+Proof. exact no_injector_config. Qed.
+Print Assumptions C19_no_injector_config.
+
 Theorem C19_bounds_in_microseconds :
   forall v, 0 <= v < 2 ^ 64 -> dur_ms v = v / 1000.
 Proof. exact dur_ms_micros. Qed.
@@ -156,7 +181,7 @@ Theorem C19_script_runs_polls :
     let t_end := fold_left (fun a q => a + Z.max 0 (q_gap q)) qs 0 + Z.max 0 (zn s 6) in
     let cs := calls 0 0 qs in
     let os := fst (run_polls c t_end (polls cs [] 0) (skipn (8 + 3 * n) s)) in
-    [3] ++ flat_map (enc_call os) cs ++
+    [7] ++ flat_map (enc_call os) cs ++
     [Z.of_nat (length (flat_map (fun po => d_bits (o_dec (snd po))) os))] ++
     flat_map (fun po => d_bits (o_dec (snd po))) os.
 Proof. exact script_runs_polls. Qed.
